@@ -58,6 +58,31 @@ def _lazy_names(cls):
     return _LAZY[cls]
 
 
+# helper objects handed to photutils (estimators, SigmaClip, interpolators, finders, groupers, fitters,
+# local-background estimators, window functions ...) are caller-supplied objects like any other: their
+# PUBLIC attributes are snapshotted by value.  Not watched: underscore attributes that are not arrays
+# (scratch state such as LocalBackground._aperture) and `fit_info` of an astropy fitter (updated by the
+# fitter's own __call__, the documented in-place effect of calling a fitter).
+HELPER_CLASSES = ('SigmaClip',)
+STATE_SKIP = ('fit_info',)
+
+
+def _state(o, depth, skip=()):
+    items = []
+    d = getattr(o, '__dict__', None) or {}
+    for k in sorted(d):
+        if k.startswith('_') or k in skip or k in STATE_SKIP:
+            continue
+        v = d[k]
+        if callable(v) and not hasattr(v, '__dict__'):
+            items.append((k, ('py', 'callable', getattr(v, '__name__', type(v).__name__))))
+        elif depth > 3:
+            items.append((k, ('py', type(v).__name__, repr(v)[:80] if not hasattr(v, '__dict__') else '')))
+        else:
+            items.append((k, snap(v, depth + 1)))
+    return ('state', type(o).__name__, tuple(items))
+
+
 def snap(o, depth=0):
     """Deep, comparable description of a caller-supplied object: values (bitwise), dtype,
     shape, mask, fill value, unit, table columns and meta, model parameters and constraints,
@@ -138,11 +163,13 @@ def snap(o, depth=0):
                     cache[k] = snap(v, depth + 1)
             elif isinstance(v, (np.ndarray, Table, NDData)):
                 items.append((k, snap(v, depth + 1)))
-        return ('obj', type(o).__name__, tuple(items), cache)
+        return ('obj', type(o).__name__, tuple(items), cache, _state(o, depth, skip=lazy)[2])
     if isinstance(o, (list, tuple)):
         return ('L', type(o).__name__, tuple(snap(x, depth + 1) for x in o))
     if isinstance(o, dict):
         return ('D', tuple((repr(k), snap(v, depth + 1)) for k, v in sorted(o.items(), key=lambda kv: repr(kv[0]))))
+    if hasattr(o, '__dict__') and not callable(o) or type(o).__name__ in HELPER_CLASSES:
+        return _state(o, depth)
     return ('other', type(o).__name__)
 
 
